@@ -1,6 +1,6 @@
 SPECIFICATION Spec
 CONSTANTS
-  Threshold = 1
+  Threshold = 2
   MaxRedirect = 65535
   MaxHeader = 255
   Deviations = {}
@@ -8,13 +8,13 @@ CONSTANTS
   Mode = "lk"
   NC = 2
   MaxBody = 3
-  MaxPrefix = 2
-  SkipBytes = {0, 128}
-  Variants = {0}
+  MaxPrefix = 1
+  SkipBytes = {1, 128}
+  Variants = {2}
   DimVals = {0, 3}
   MaxW = 2
   MaxH = 1
-  DomT = 1
+  DomT = 2
   PadK = 0
   Waive = {}
 INVARIANTS Idempotent SameFont SameChains Fits Closed MainLoopSame PlWellFormed
